@@ -8,6 +8,8 @@ Decided:
   R10.3  a container's `scheduled` flag is control dependent on an all-children-scheduled test
   R10.4  container dates are written from the roll-up values; the final pass visits children first
   R10.5  both roll-ups write the container dates unconditionally with respect to the container's own dates
+  R10.7  one call of the roll-up closes every nesting level that is complete (children-first order or fixpoint)
+  R10.8  the roll-up runs before the first and between a placement and the next readiness scan (= C07 R07.2)
 Not decided: equality of container dates with the children's extremes (runtime values).
 """
 from __future__ import annotations
@@ -174,6 +176,26 @@ def run(ctx: Ctx):
            "a path from scheduleScenario skips finishScenario: when a leaf could not be placed the outer containers of a deep tree are "
            "never rolled up although all their children are scheduled",
            key="R10.4|Project.schedule|finish postdom")
+    # ---------------------------------------------------------------- R10.7 one roll-up call closes every complete nesting level
+    loops_u = [l for l in own_nodes(upd) if isinstance(l, ast.For) and "self.tasks" in norm(l.iter) and getattr(l, "_parent", None) is upd.node]
+    if len(loops_u) != 1:
+        raise AnchorMissing(f"_updateContainerTaskStatus: {len(loops_u)} top-level loops over self.tasks")
+    it = loops_u[0].iter
+    fix = any(isinstance(w, ast.While) for w in own_nodes(upd) if any(x is loops_u[0] for x in ast.walk(w)))
+    children_first = isinstance(it, ast.Call) and norm(it.func) == "reversed"
+    if not (children_first or fix) and norm(it) != "self.tasks":
+        from ..model import Inconclusive
+        raise Inconclusive(f"_updateContainerTaskStatus: iteration order {norm(it)} is neither declaration order, its reverse, nor a fixpoint loop")
+    ok = children_first or fix
+    ctx.ob("R10.7", f"{upd.qual}: roll-up order {norm(it)}", (upd, loops_u[0]), ok,
+           "children are visited before their container (declaration order reversed) or the pass is repeated to a fixpoint" if ok else
+           "containers are visited in declaration order (parents first) in a single pass: each call closes one nesting level only, so an "
+           "outer container whose children are all scheduled stays unscheduled and its dependants are reported as deadlocked",
+           key="R10.7|_updateContainerTaskStatus|order")
+    # ---------------------------------------------------------------- R10.8 roll-up around the readiness scan (shared with C07 R07.2)
+    from .c07 import scan_rules
+    scan_rules(ctx, "R10.8")
+    ctx.floor("R10.8", 6)
     # ---------------------------------------------------------------- R10.2
     for fn, exp in ((upd, {"min_start": "child_start", "max_end": "child_end"}), (sc, {"n_start": "child_start", "n_end": "child_end"})):
         found = {}
